@@ -94,6 +94,84 @@ pub fn catch<T>(f: impl FnOnce() -> T) -> Result<T, PanicInfo> {
 }
 
 // ------------------------------------------------------------------------------------
+// Calls that do not return
+// ------------------------------------------------------------------------------------
+// Every property says what a call *returns*; a call that never returns breaks it just as a wrong
+// value does, but cannot be observed from inside the thread that is stuck. Each worker publishes
+// the case it is judging; a monitor thread (started when VERIF_HANG_FILE is set, i.e. by ./check)
+// writes the case that has been running for more than VERIF_HANG_SECS (default 45; typical cases
+// take microseconds) as a replay file and ends the process with exit code 3. ./check then replays
+// that single case in a fresh process under its own, longer limit before it reports anything:
+// still not returning => VIOLATION, returning => exit 2 (the machine was slow).
+
+struct Slot {
+    since: std::time::Instant,
+    check: &'static str,
+    case: Box<dyn Fn() -> serde_json::Value + Send>,
+}
+
+const N_SLOTS: usize = 256;
+static SLOTS: std::sync::OnceLock<Vec<Mutex<Option<Slot>>>> = std::sync::OnceLock::new();
+static NEXT_WORKER: std::sync::atomic::AtomicUsize = std::sync::atomic::AtomicUsize::new(0);
+thread_local! {
+    static WORKER: usize = NEXT_WORKER.fetch_add(1, Ordering::Relaxed) % N_SLOTS;
+}
+
+fn slots() -> &'static Vec<Mutex<Option<Slot>>> {
+    SLOTS.get_or_init(|| (0..N_SLOTS).map(|_| Mutex::new(None)).collect())
+}
+
+/// runs `f` while the case is published to the hang monitor
+fn watched<P: Prop, T>(case: &P::Case, f: impl FnOnce() -> T) -> T {
+    let w = WORKER.with(|w| *w);
+    {
+        let c2 = case.clone();
+        let slot = Slot { since: std::time::Instant::now(), check: P::NAME, case: Box::new(move || serde_json::to_value(&c2).unwrap_or(serde_json::Value::Null)) };
+        if let Ok(mut g) = slots()[w].lock() {
+            *g = Some(slot);
+        }
+    }
+    let r = f();
+    if let Ok(mut g) = slots()[w].lock() {
+        *g = None;
+    }
+    r
+}
+
+fn start_hang_monitor(property: String, profile: String) {
+    static ONCE: std::sync::Once = std::sync::Once::new();
+    let Ok(file) = std::env::var("VERIF_HANG_FILE") else { return };
+    let limit: f64 = std::env::var("VERIF_HANG_SECS").ok().and_then(|s| s.parse().ok()).unwrap_or(45.0);
+    ONCE.call_once(move || {
+        std::thread::spawn(move || loop {
+            std::thread::sleep(std::time::Duration::from_millis(500));
+            for m in slots().iter() {
+                let Ok(g) = m.lock() else { continue };
+                if let Some(slot) = g.as_ref() {
+                    let secs = slot.since.elapsed().as_secs_f64();
+                    if secs > limit {
+                        let rep = Replay {
+                            property: property.clone(),
+                            check: slot.check.to_string(),
+                            profile: profile.clone(),
+                            seed: 0,
+                            case: (slot.case)(),
+                            expected: "every call this case makes into the crate returns (a value, an error or a panic)".to_string(),
+                            actual: format!("still running after {:.0} s", secs),
+                            signature: format!("{}.does_not_return", property.to_lowercase()),
+                            shrunk: false,
+                            before: Vec::new(),
+                        };
+                        std::fs::write(&file, serde_json::to_string_pretty(&rep).unwrap_or_default()).ok();
+                        std::process::exit(3);
+                    }
+                }
+            }
+        });
+    });
+}
+
+// ------------------------------------------------------------------------------------
 // Verdicts and per-case context
 // ------------------------------------------------------------------------------------
 
@@ -320,7 +398,7 @@ fn replay_impl<P: Prop>(v: &serde_json::Value, before: &[serde_json::Value]) -> 
     }
     let case: P::Case = serde_json::from_value(v.clone()).map_err(|e| e.to_string())?;
     let mut cx = Cx::default();
-    let verdict = match catch(|| P::check(&case, &mut cx)) {
+    let verdict = match watched::<P, _>(&case, || catch(|| P::check(&case, &mut cx))) {
         Ok(v) => v,
         Err(p) => fail("harness.check_panicked", "check returns", p.short()),
     };
@@ -373,6 +451,7 @@ static STOP: AtomicBool = AtomicBool::new(false);
 impl Env {
     pub fn new(property: &str, tier: &str, profile: &str, seed: u64) -> Self {
         install_panic_hook();
+        start_hang_monitor(property.to_string(), profile.to_string());
         let known = std::fs::read_to_string("/verif/known_findings.json")
             .ok()
             .and_then(|s| serde_json::from_str::<KnownFile>(&s).ok())
@@ -420,7 +499,7 @@ impl Env {
 
     fn judge<P: Prop>(&self, case: &P::Case, stats: &mut Stats, counting: bool) -> Option<Failure> {
         let mut cx = Cx::default();
-        let verdict = match catch(|| P::check(case, &mut cx)) {
+        let verdict = match watched::<P, _>(case, || catch(|| P::check(case, &mut cx))) {
             Ok(v) => v,
             Err(p) => fail("harness.check_panicked", "check itself does not panic", p.short()),
         };
